@@ -190,7 +190,14 @@ def gen_word(rng, maxlen=6):
     # an ampersand is ordinary cue text; a run that ENDS in '&' + letters looks like a truncated character reference
     # (no spelled-out references: whether SubRip text decodes them is not part of C10)
     s += rng.choice(["Q&A", "AT&T", " R&D", "&", "a &b"])
+  if rng.random() < 0.05:
+    # characters that Unicode (and str.splitlines) regards as line boundaries but that are NOT line ends of the format:
+    # they are part of the text, also at the very end of a line
+    s = "w" + s + rng.choice(UNICODE_BREAKS) * rng.choice([1, 1, 2])
   return s
+
+
+UNICODE_BREAKS = ["\u2028", "\u2029", "\u0085", "\x0b", "\x0c", "\x1c", "\x1d", "\x1e"]
 
 
 def gen_cue_lines(rng, maxlines=5, crossing=0.15, unclosed=0.15):
